@@ -869,4 +869,99 @@ theorem sorted_reverse_descending' {α : Type} (dflt : α) (keyOf : List α → 
   have := lexLe_single _ _ h
   rwa [reverseRank_antitone' D (keyOf r) (keyOf s) mr ms] at this
 
+/-! ### audit additions: multi-key sorting with mixed directions, transpose as `zip(*rows)` -/
+
+
+/-- the key record `Table.sorted` hands to `argsort`: field `i` of the row's key fields through transform `i` -/
+def keyT : List (Bool × (SKey → SKey)) → List SKey → List SKey
+  | e :: sp, x :: xs => e.2 x :: keyT sp xs
+  | _, _ => []
+
+/-- the order the caller asks for: the first differing key field decides, ascending (`false`) or descending (`true`) -/
+def mixedLe : List Bool → List SKey → List SKey → Bool
+  | rev :: rs, a :: as, b :: bs =>
+    if a = b then mixedLe rs as bs else (if rev then SKey.le b a else SKey.le a b)
+  | _, _, _ => true
+
+/-- a transform is faithful for direction `rev` on a pair of fields -/
+def FieldOK (rev : Bool) (T : SKey → SKey) (x y : SKey) : Prop :=
+  (T x = T y → x = y) ∧ SKey.le (T x) (T y) = (if rev then SKey.le y x else SKey.le x y)
+
+def AllOK : List (Bool × (SKey → SKey)) → List SKey → List SKey → Prop
+  | e :: sp, x :: xs, y :: ys => FieldOK e.1 e.2 x y ∧ AllOK sp xs ys
+  | [], [], [] => True
+  | _, _, _ => False
+
+theorem lexLe_keyT : ∀ (sp : List (Bool × (SKey → SKey))) (a b : List SKey), AllOK sp a b →
+    lexLe (keyT sp a) (keyT sp b) = mixedLe (sp.map (·.1)) a b
+  | [], [], [], _ => rfl
+  | [], [], _ :: _, h => by simp [AllOK] at h
+  | [], _ :: _, _, h => by simp [AllOK] at h
+  | _ :: _, [], _, h => by simp [AllOK] at h
+  | _ :: _, _ :: _, [], h => by simp [AllOK] at h
+  | e :: sp, x :: xs, y :: ys, h => by
+    obtain ⟨⟨hinj, hle⟩, hrest⟩ := h
+    simp only [keyT, lexLe, List.map_cons, mixedLe]
+    by_cases hxy : x = y
+    · subst hxy; simp [lexLe_keyT sp xs ys hrest]
+    · have : e.2 x ≠ e.2 y := fun h => hxy (hinj h)
+      simp [this, hxy, hle]
+
+theorem fieldOK_asc (x y : SKey) : FieldOK false id x y := ⟨fun h => h, by simp⟩
+
+theorem fieldOK_descRank (D : List SKey) (x y : SKey) (hx : x ∈ D) (hy : y ∈ D) :
+    FieldOK true (fun k => .num (-((denseRank SKey.le D k : Nat) : Rat))) x y := by
+  refine ⟨?_, by simpa using reverseRank_antitone' D x y hx hy⟩
+  intro h
+  have e : denseRank SKey.le D x = denseRank SKey.le D y := by
+    have : (-((denseRank SKey.le D x : Nat) : Rat)) = -((denseRank SKey.le D y : Nat) : Rat) := by
+      injection h
+    have h2 := congrArg (fun z : Rat => -z) this
+    simp only [Rat.neg_neg] at h2
+    exact_mod_cast h2
+  have h1 := (denseRank_le_iff SKey.le SKey.le_trans SKey.le_antisymm SKey.le_total D x y hx hy).1 (by omega)
+  have h2 := (denseRank_le_iff SKey.le SKey.le_trans SKey.le_antisymm SKey.le_total D y x hy hx).1 (by omega)
+  exact SKey.le_antisymm x y h1 h2
+
+/-- `_reverse_num` on a numeric key column -/
+def revNumField : SKey → SKey
+  | .num q => .num (reverseNum q)
+  | k => k
+
+theorem fieldOK_descNum (p q : Rat) : FieldOK true revNumField (.num p) (.num q) := by
+  refine ⟨?_, ?_⟩
+  · intro h
+    simp only [revNumField, reverseNum] at h
+    injection h with h
+    have : p = q := by
+      rw [Rat.mul_neg, Rat.mul_one, Rat.mul_neg, Rat.mul_one] at h
+      have h2 := congrArg (fun z : Rat => -z) h
+      simpa only [Rat.neg_neg] using h2
+    rw [this]
+  · simp only [revNumField, SKey.le, if_true]
+    rw [Bool.eq_iff_iff]
+    simp only [decide_eq_true_eq]
+    exact (reverseNum_antitone' q p).symm
+
+
+/-- the rows of the transposed store are the columns of the row list (`list(zip(*rows))`) -/
+theorem transposeCols_rows (dflt : α) (cols : List (List α)) (hw : WF cols) (hn : nrows cols ≠ 0) :
+    rowsOf dflt (transposeCols dflt cols) = TableRows.transpose dflt cols.length (rowsOf dflt cols) := by
+  have h := transposeCols_involutive dflt cols hw hn
+  unfold transposeCols at h ⊢
+  rw [h]
+  unfold TableRows.transpose
+  apply List.ext_getElem
+  · simp
+  · intro j h2 h3
+    simp only [List.getElem_map, List.getElem_range]
+    unfold rowsOf
+    rw [List.map_map]
+    have hc : cols[j].length = nrows cols := hw _ (List.getElem_mem h2)
+    have key : ∀ i, ((fun r : List α => r.getD j dflt) ∘ rowAt dflt cols) i = cols[j].getD i dflt := by
+      intro i
+      simp [Function.comp, rowAt, List.getD_eq_getElem?_getD, h2]
+    rw [List.map_congr_left (fun i _ => key i), ← hc]
+    exact (map_getD_range_self dflt cols[j]).symm
+
 end CogentModel.TableOps
